@@ -521,6 +521,7 @@ func checkLevels(c *fw.Ctx) {
 		}
 	}
 	c.Min(rule+" UserLevel call sites on room state", n, 1)
+	checkCreatorGate(c, rule)
 }
 
 // handlers pass through commonChecks
